@@ -637,33 +637,62 @@ func checkC16(c *CheckCtx) error {
 		groups[k] = append(groups[k], dc)
 	}
 	sort.Strings(keys)
-	var scs []*Scenario
-	n := 0
-	limit := c.pick(900, 12000)
-	for _, k := range keys {
+	type triple struct {
+		k    string
+		i, j int
+	}
+	// per matcher sequence: pairs that differ ONLY at masked paths (must pass against each other)
+	// and pairs that differ at exactly one unmasked path (must not); every sequence gets its share
+	var triples []triple
+	per := c.pick(1200, 20000)/(2*len(keys)) + 1
+	for gi, k := range keys {
 		g := groups[k]
+		masked := map[string]bool{}
+		for _, m := range g[0].MS {
+			masked[m.P] = true
+		}
+		var inside, outside []triple
 		for i := 0; i < len(g); i++ {
 			for j := 0; j < len(g); j++ {
-				if i == j || (i+j+int(c.Seed))%3 != 0 {
+				if i == j {
 					continue
 				}
-				if n >= limit {
-					break
+				in, out := 0, 0
+				for _, p := range docPaths {
+					if g[i].D[p] != g[j].D[p] {
+						if masked[p] {
+							in++
+						} else {
+							out++
+						}
+					}
 				}
-				api := []string{"json", "sjson", "yaml"}[n%3]
-				sc := &Scenario{ID: fmt.Sprintf("mk%d", n), Configs: stdConfigs(), Program: []string{"TestA"}}
-				mk := func(dc *docCase, form string, style int) []*Step {
-					return []*Step{{Op: "begin", Name: "TestA"}, docStep(dc, api, "c", form, style), {Op: "end", Name: "TestA"}}
+				if in > 0 && out == 0 {
+					inside = append(inside, triple{k, i, j})
 				}
-				sc.Procs = append(sc.Procs, &Proc{Spec: procSpec("default"), Steps: mk(g[i], "str", 0)})
-				sc.Procs = append(sc.Procs, &Proc{Spec: procSpec([]string{"default", "ci", "color"}[n%3]), Steps: mk(g[j], []string{"str", "bytes"}[n%2], n%3)})
-				same := docIdentity(g[i], "x") == docIdentity(g[j], "x")
-				sc.Note = fmt.Sprintf("store d1, match d2 via %s; masked documents equal=%v; matchers=%s", api, same, k)
-				scs = append(scs, sc)
-				c.nontrivial(fmt.Sprintf("%v|%v|%s", g[i].D, g[j].D, k))
-				n++
+				if in == 0 && out == 1 {
+					outside = append(outside, triple{k, i, j})
+				}
 			}
 		}
+		triples = append(triples, thin(inside, per, c.Seed+int64(gi))...)
+		triples = append(triples, thin(outside, per, c.Seed+int64(gi)+7)...)
+	}
+	var scs []*Scenario
+	for n, tr := range triples {
+		g := groups[tr.k]
+		i, j, k := tr.i, tr.j, tr.k
+		api := []string{"json", "sjson", "yaml"}[n%3]
+		sc := &Scenario{ID: fmt.Sprintf("mk%d", n), Configs: stdConfigs(), Program: []string{"TestA"}}
+		mk := func(dc *docCase, form string, style int) []*Step {
+			return []*Step{{Op: "begin", Name: "TestA"}, docStep(dc, api, "c", form, style), {Op: "end", Name: "TestA"}}
+		}
+		sc.Procs = append(sc.Procs, &Proc{Spec: procSpec("default"), Steps: mk(g[i], "str", 0)})
+		sc.Procs = append(sc.Procs, &Proc{Spec: procSpec([]string{"default", "ci", "color"}[n%3]), Steps: mk(g[j], []string{"str", "bytes"}[n%2], n%3)})
+		same := docIdentity(g[i], "x") == docIdentity(g[j], "x")
+		sc.Note = fmt.Sprintf("store d1, match d2 via %s; masked documents equal=%v; matchers=%s", api, same, k)
+		scs = append(scs, sc)
+		c.nontrivial(fmt.Sprintf("%v|%v|%s", g[i].D, g[j].D, k))
 	}
 	c.sample(map[string]any{"source": "MC_Docs cases", "note": scs[0].Note})
 	scs = append(scs, jsonNearMiss(c)...)
